@@ -20,7 +20,8 @@ EXPLANATION = (
     'R4 the function handler has early exits guarded by decorator attribute == "setter" and == "deleter" and by nothing that names the getter; '
     'R5 the If handler skips exactly the `__name__ == "__main__"` guard and descends otherwise; R6 the package walk empties the directory list '
     'in place on the non-package branch and yields nothing there; R7 one example per google block with the index taken from enumerate, one '
-    'parse per calldef keyed by the calldefs key. Google/freeform block splitting and numbering of every docstring are not decided.')
+    'parse per calldef keyed by the calldefs key. Google/freeform block splitting and numbering of every docstring are not decided.'
+    ' R6 also: every path joined inside the os.walk loop starts at the walked directory. R8 also: a generic_visit override that filters children must let ast.stmt, ast.excepthandler and ast.match_case through. R9 REGEX-FACT on the folded google block-label pattern (12 samples).')
 DECIDES = ['EXHAUSTIVE handler table', 'no descent into function bodies', 'GUARD-DOM class nesting + PAIRING', 'setter/deleter exits', 'main-guard exit', 'package walk pruning', 'example keying']
 NOT_DECIDED = ['what the Google block splitter and the freeform grouper do for every docstring', 'uniqueness of identifiers for duplicate definitions (last one wins by mapping semantics)']
 
